@@ -300,5 +300,44 @@ theorem parseIdentity_ok {s name data : Bytes} (h : parseIdentity s = .ok (name,
       · simp only [hs, Bool.not_false, Bool.or_true, if_true] at h; cases h
     · simp only [hp, Bool.not_false, Bool.true_or, if_true] at h; cases h
 
+/-! ## vocabulary of the rejection theorems (Props/C09.lean) -/
+
+/-- all four parsers (and hence `plugin.NewRecipient` / `NewIdentity`) reject `s`
+    with a Bech32 error satisfying `P` -/
+def RejectedWith (s : Bytes) (P : Bech32.Err → Prop) : Prop :=
+  ∃ e, P e ∧ parseX25519Recipient s = .error (.bech32 e) ∧ parseX25519Identity s = .error (.bech32 e) ∧
+    parseRecipient s = .error (.bech32 e) ∧ parseIdentity s = .error (.bech32 e) ∧
+    newRecipient s = .error (.bech32 e) ∧ newIdentity s = .error (.bech32 e)
+
+theorem rejected_of_decode {s : Bytes} {e : Bech32.Err} (h : decode s = .error e) : RejectedWith s (· = e) := by
+  refine ⟨e, rfl, ?_, ?_, ?_, ?_, ?_, ?_⟩ <;>
+    simp only [parseX25519Recipient, parseX25519Identity, parseRecipient, parseIdentity, newRecipient, newIdentity, h]
+
+theorem error_of_not_ok {α : Type} (r : Except Keys.Err α) (h : ∀ a, r ≠ .ok a) : ∃ e, r = .error e := by
+  cases r with
+  | ok a => exact absurd rfl (h a)
+  | error e => exact ⟨e, rfl⟩
+
+/-- the string made of HRP `H`, data symbols `d5` and their valid checksum -/
+def Assembled (H d5 cs : Bytes) : Prop :=
+  H ≠ [] ∧ hasBadByte H = false ∧ toLower H = H ∧ (∀ x ∈ d5, x.toNat < 32) ∧
+    mapOpt charsetAt (d5 ++ createChecksum H d5) = some cs
+
+theorem decode_of_assembled {H d5 cs : Bytes} (h : Assembled H d5 cs) :
+    decode (H ++ 0x31 :: cs) =
+      match convertBits d5 5 8 false with
+      | .error e => .error e
+      | .ok b => .ok (H, b) := by
+  obtain ⟨h1, h2, h3, h4, h5⟩ := h
+  have hall : ∀ x ∈ d5 ++ createChecksum H d5, x.toNat < 32 := by
+    intro x hx
+    rcases List.mem_append.mp hx with hx | hx
+    · exact h4 x hx
+    · exact createChecksum_lt _ _ x hx
+  obtain ⟨cs', c1, c2, c3, c4, c5⟩ := chars_of_syms _ hall
+  rw [h5] at c1; cases c1
+  exact decode_assembled H cs d5 h1 h2 c3 c4 (Or.inl (by rw [toLower_append, toLower_cons, h3, c2]; rfl))
+    (by rw [c2]; exact c5)
+
 end Keys
 end AgeModel
